@@ -97,4 +97,32 @@ theorem view_refines (s : VStore) (h : Nat) (o : Overlay) (base : KV) (hb : s.at
 example : ((VStore.init 2).applyBlocks [[.set 1 "a"], [.set 2 "b"], [.del 1]]).at 2 = some [(1, "a"), (2, "b")] := by decide
 example : ((VStore.init 2).applyBlocks [[.set 1 "a"], [.set 2 "b"], [.del 1]]).at 1 = none := by decide
 
+
+/-! ### abandoned block attempts: `Reset` -/
+
+/-- **reset_discards**: whatever was written into the canonical working tree since the last commit, a `Reset` brings
+back exactly what a `Reset` without those writes gives — nothing of an abandoned attempt stays visible, neither to
+point reads nor to range iteration (`iter` is the whole working content). -/
+theorem reset_discards (s : VStore) (ws : List BOp) :
+    ((ws.foldl VStore.write s).reset).iter = s.reset.iter := by
+  unfold VStore.reset VStore.iter
+  simp only [writes_versions]
+
+/-- **reset_is_last_commit**: after a commit (retention ≥ 1) a `Reset` — with or without writes in between — shows
+exactly the committed content -/
+theorem reset_is_last_commit (s : VStore) (hk : 0 < s.keep) (ws : List BOp) :
+    ((ws.foldl VStore.write s.commit).reset).iter = s.working := by
+  rw [reset_discards]
+  unfold VStore.reset VStore.iter VStore.commit
+  cases hkk : s.keep with
+  | zero => omega
+  | succ n => simp [List.take]
+
+/-- a `Reset` never touches the saved versions -/
+theorem reset_versions (s : VStore) : s.reset.versions = s.versions := rfl
+
+/-- non-vacuity: a committed store, an abandoned attempt (a write and a delete), a reset -/
+def resetDemo : VStore := (VStore.write (VStore.write (VStore.init 3) (.set 2 "b")).commit (.set 1 "a")).write (.del 2)
+example : resetDemo.iter = [(1, "a")] ∧ resetDemo.reset.iter = [(2, "b")] := by decide
+
 end IdenaModel.Store
